@@ -349,21 +349,33 @@ class Ctx:
         self.pos = 0
         self.pc = []
         self.solver = z3.Solver()
-        self.solver.set('timeout', timeout_ms)
         self.stats = stats
         self.timeout_ms = timeout_ms
+        self.cur_timeout_ms = timeout_ms
+        self.branch_timeout_ms = min(timeout_ms, 10000)
+        self.solver.set('timeout', self.branch_timeout_ms)
         self.export_every = export_every
         self.stop_at_first = stop_at_first
         self.fresh_n = 0
 
     # -- solver helpers
-    def _check(self, *extra):
+    def _check(self, *extra, fresh=False):
+        """incremental (push/pop) solver for cheap branch queries; a fresh one-shot solver (which may
+        use nlsat etc.) for obligations and whenever the incremental core answers unknown"""
         t0 = time.time()
-        self.solver.push()
-        self.solver.add(*extra)
-        r = self.solver.check()
-        m = self.solver.model() if r == z3.sat else None
-        self.solver.pop()
+        r = z3.unknown; m = None
+        if not fresh:
+            self.solver.push()
+            self.solver.add(*extra)
+            r = self.solver.check()
+            m = self.solver.model() if r == z3.sat else None
+            self.solver.pop()
+        if r == z3.unknown:
+            s = z3.Solver()
+            s.set('timeout', self.cur_timeout_ms)
+            s.add(*self.pc); s.add(*extra)
+            r = s.check()
+            m = s.model() if r == z3.sat else None
         self.stats.solver_s += time.time() - t0
         return str(r), m
 
@@ -467,10 +479,9 @@ class Ctx:
             d['unsat'] += 1; st.queries['unsat'] += 1
             return 'unsat'
         if timeout_ms:
-            self.solver.set('timeout', timeout_ms)
-        r, m = self._check(z3.Not(prop))
-        if timeout_ms:
-            self.solver.set('timeout', self.timeout_ms)
+            self.cur_timeout_ms = timeout_ms
+        r, m = self._check(z3.Not(prop), fresh=True)
+        self.cur_timeout_ms = self.timeout_ms
         d[r] += 1; st.queries[r] += 1
         if self.export_every and (st.total_queries % self.export_every == 0) and len(st.smt2) < 8:
             s2 = z3.Solver(); s2.add(*self.pc); s2.add(z3.Not(prop))
@@ -495,7 +506,8 @@ class _StopExploration(BaseException):
     pass
 
 
-def explore(fn, timeout_ms=30000, max_paths=20000, export_every=0, stop_at_first=True, wall_budget_s=None):
+def explore(fn, timeout_ms=30000, max_paths=20000, export_every=0, stop_at_first=True, wall_budget_s=None,
+            catch_exceptions=True):
     """Run `fn(ctx)` once per feasible path.  `fn` creates its symbolic inputs (plain z3 consts
     wrapped in Sym), calls ctx.assume(...) for preconditions, runs the code under test and states
     obligations with ctx.check(...).  Returns Stats."""
@@ -515,6 +527,24 @@ def explore(fn, timeout_ms=30000, max_paths=20000, export_every=0, stop_at_first
             except _StopExploration:
                 stats.paths += 1
                 break
+            except Inconclusive:
+                raise
+            except Exception as e:
+                # the code under test raised on a feasible path: a candidate violation ("route fails")
+                if not catch_exceptions:
+                    raise
+                import traceback as _tb
+                r, m = c._check(fresh=True)
+                if r == 'sat':
+                    d = stats.obligations.setdefault('no-exception', {'unsat': 0, 'sat': 0, 'unknown': 0})
+                    d['sat'] += 1; stats.queries['sat'] += 1
+                    stats.cex.append({'name': 'exception %s: %s' % (type(e).__name__, str(e)[:200]), 'model': m,
+                                      'path': stats.paths, 'traceback': _tb.format_exc()[-1500:]})
+                    if stop_at_first:
+                        stats.paths += 1
+                        break
+                elif r == 'unknown':
+                    raise Inconclusive('exception on a path of unknown feasibility: %r' % e)
             stats.paths += 1
             decisions = c.decisions[:c.pos] if c.pos < len(c.decisions) else c.decisions
             while decisions and not (decisions[-1][0] == 'T' and decisions[-1][1] is True):
